@@ -75,6 +75,19 @@ def sample_contract(reg,c,repo,seed,count):
       if not out.ok and len(fails)<5: fails.append(dict(args=desc,case=out.case,failed=out.failed))
   return dict(evaluations=ev,per_case=per_case,failures=fails,skipped=skipped)
 
+def run_standin(reg,c,repo):
+  """bounded stand-in: the executable contract on the real function over the contract's stated finite input domain."""
+  ns=runtime.macro_namespace(); ev=0; fails=[]; per_case={cs.name:0 for cs in c.cases}
+  for args in c.standin_inputs(repo,reg):
+    out=runtime.check_call(c,args,repo,ns); ev+=1
+    if out.skipped: continue
+    per_case[out.case]+=1
+    if not out.ok:
+      simple=all(isinstance(v,(int,bool,type(None))) for v in args.values())
+      fails.append(dict(args={p:runtime.describe(v) for p,v in args.items()},args_json=(dict(args) if simple else None),case=out.case,failed=out.failed))
+      if len(fails)>=200: break
+  return dict(evaluations=ev,per_case=per_case,failures=fails,skipped=0,bound=c.bounded)
+
 # ------------------------------------------------------------------------------------------- refutation
 GRID=[1,2,3,4,5,8]
 def default_pins(c,syms):
@@ -101,7 +114,7 @@ def excluded(known,c,args_model,types,repo,reg):
     except Exception: pass
   return None
 
-def refute(reg,c,o,repo,known,timeout_ms):
+def refute(reg,c,o,repo,known,timeout_ms,only_variant=None):
   """search a concrete input that makes obligation o fail on the real code. returns dict or None."""
   tried=0
   def attempt(types,model,origin):
@@ -120,13 +133,13 @@ def refute(reg,c,o,repo,known,timeout_ms):
       found.append(r)
   # re-encode with the size symbol instantiated from the grid (quantifier- and UF-free, exact on the window)
   extra=[kf['exclude_requires'] for kf in known if kf.get('status')=='open' and kf.get('contract')==c.key and kf.get('exclude_requires')]
-  probe_obls,_=verify.generate(reg,c,only_case=o.case)
+  probe_obls,_=verify.generate(reg,c,only_case=o.case,only_variant=only_variant)
   syms=[]
   for po in probe_obls:
     for q in po.queries: syms=q.syms; break
     if syms: break
   for pins in (c.refute_pins(syms) if getattr(c,'refute_pins',None) else default_pins(c,syms)):
-    try: obls2,_=verify.generate(reg,c,pins=pins,only_case=o.case,extra_requires=extra)
+    try: obls2,_=verify.generate(reg,c,pins=pins,only_case=o.case,extra_requires=extra,only_variant=only_variant)
     except (ToolError,Unsupported): continue
     for o2 in obls2:
       if o2.name!=o.name: continue
@@ -142,7 +155,8 @@ def refute(reg,c,o,repo,known,timeout_ms):
 
 # ------------------------------------------------------------------------------------------- worker
 def run_contract(args):
-  repo,key,timeout_ms,seed,nsample,known=args
+  repo,key,timeout_ms,seed,nsample,known=args[:6]
+  only_variant=args[6] if len(args)>6 else None
   t0=time.time()
   import signal
   def _alarm(sig,frm): raise TimeoutError("contract worker exceeded its wall-clock budget")
@@ -154,15 +168,18 @@ def run_contract(args):
     mod=c.module(reg)
     out['file']=c.file; out['qual']=c.qual
     out['ast_hash']=mod.ast_hash(c.qual); out['lines']=list(mod.lines(c.qual)); out['properties']=list(c.property_ids)
+    out['expected_out_of_reach']=bool(c.bounded)
   except Exception as e:
     out.update(ok=False,error=f"{type(e).__name__}: {e}",trace=traceback.format_exc(),time=time.time()-t0); return out
+  if c.bounded and c.standin_inputs is not None and getattr(c,'force_standin',False):
+    out['standin']=run_standin(reg,c,repo); out['time']=time.time()-t0; return out
   try:
-    obls,info=verify.generate(reg,c)
+    obls,info=verify.generate(reg,c,only_variant=only_variant)
     out['info']=info
     verify.discharge(obls,timeout_ms)
     for o in obls:
       if o.status!='proved':
-        r=refute(reg,c,o,repo,known,timeout_ms)
+        r=refute(reg,c,o,repo,known,timeout_ms,only_variant)
         if r is not None:
           o.status='violated'; o.cex=r
         else:
@@ -171,8 +188,13 @@ def run_contract(args):
     out['obligations']=[o.summary() for o in obls]
   except Unsupported as e:
     out.update(ok=False,unsupported=True,error=f"out of reach: {e}",trace=traceback.format_exc())
+    if c.standin_inputs is not None and only_variant in (None,'<none>'):
+      try: out['standin']=run_standin(reg,c,repo)
+      except Exception as e2: out['standin']=dict(evaluations=0,per_case={},failures=[dict(error=f"{type(e2).__name__}: {e2}")],skipped=0,bound=c.bounded)
   except Exception as e:
     out.update(ok=False,error=f"{type(e).__name__}: {e}",trace=traceback.format_exc())
+  if only_variant is not None and nsample==0:
+    out['time']=time.time()-t0; return out
   # native sampling of the executable contract (cover + differential); also the stand-in if out of reach
   try:
     out['sampling']=sample_contract(reg,c,repo,seed,nsample)
